@@ -5,9 +5,12 @@
 (*          task W writes through the adapter of end 1, task R reads through the adapter of end 2           *)
 (*  solo    end 1 is adapted and used by ONE task S that awaits one operation at a time (read, write,       *)
 (*          readable, writable in any order); the peer (the driver) owns end 2                              *)
-(*  shared  end 1 is adapted and used by a reader R and a writer W at the same time (full duplex on one     *)
-(*          adapter: futures' split(), Rc<RefCell<..>>, or -- Join = TRUE -- one task polling both          *)
-(*          directions, e.g. a hand-written proxy loop or join!); the peer owns end 2                       *)
+(*  split   end 1 is adapted and used by a reader task R and a writer task W at the same time (full duplex   *)
+(*          on one adapter: futures' split(), Rc<RefCell<..>>); the peer owns end 2                         *)
+(*  join    the same with Join = TRUE: ONE task polls both directions (a hand-written proxy loop, join!,    *)
+(*          select!): one waker for both branches                                                           *)
+(*  (before commit 0061559 the adapter had one waker slot: split and join lost wake-ups or span; that       *)
+(*  behaviour is the variant "single_waker", mc/asyncio_var_single_*.cfg)                                   *)
 EXTENDS AsyncIo, Json
 
 S01 == {0, 1}
